@@ -43,14 +43,14 @@ SOURCE_TYPE = {"cachet": "cache"}
 WEAK_MAY_CHANGE = {"cachet": "vita::cache::table_"}
 # objects per type, max stream length for exhaustive prefixes, token mutations per object: (quick, thorough)
 BUDGET = {
-    "hash": ((100, 600, 120), (570, 6000, 600)),
-    "fit": ((200, 600, 120), (1150, 6000, 600)),
-    "iga": ((150, 600, 120), (860, 6000, 600)),
-    "ide": ((150, 600, 120), (860, 6000, 600)),
-    "mati": ((100, 600, 120), (570, 6000, 600)),
-    "matu": ((100, 600, 120), (570, 6000, 600)),
-    "dist": ((100, 600, 160), (570, 6000, 600)),
-    "imep": ((150, 600, 160), (860, 6000, 600)),
+    "hash": ((80, 600, 120), (570, 6000, 600)),
+    "fit": ((160, 600, 120), (1150, 6000, 600)),
+    "iga": ((120, 600, 120), (860, 6000, 600)),
+    "ide": ((120, 600, 120), (860, 6000, 600)),
+    "mati": ((80, 600, 120), (570, 6000, 600)),
+    "matu": ((80, 600, 120), (570, 6000, 600)),
+    "dist": ((80, 600, 160), (570, 6000, 600)),
+    "imep": ((120, 600, 160), (860, 6000, 600)),
     "team": ((40, 600, 160), (210, 6000, 600)),
     "pop": ((40, 600, 200), (210, 6000, 700)),
     "summ": ((80, 600, 160), (430, 6000, 600)),
@@ -366,8 +366,8 @@ def mutations(rng, data, max_exh, n_tok, typ="", symtab=None, cats=None, donor=N
         rnd = [rng.below(len(toks)) for _ in range(n_tok // per)]
         picks = sorted(set(top + nested + rnd))
     for ti in picks:
-        # one variant of each format family per token, every variant on one token in five
-        nf = None if rng.below(5) == 0 else 1
+        # one variant of each format family per token, every variant on one token in eight
+        nf = None if rng.below(8) == 0 else 1
         shape = shape_of(data[toks[ti][0]:toks[ti][1]])
         for kind, bts in token_damage(rng, data, toks, ti, donor, nf):
             out.append((kind, bts, roles[ti], shape))
